@@ -31,6 +31,7 @@ import (
 	"syscall"
 	"time"
 
+	"github.com/datastax/go-cassandra-native-protocol/datatype"
 	"github.com/datastax/go-cassandra-native-protocol/frame"
 	"github.com/datastax/go-cassandra-native-protocol/message"
 	"github.com/datastax/go-cassandra-native-protocol/primitive"
@@ -667,6 +668,37 @@ func collectBases(rnd *rand.Rand, thorough bool) []*baseFrame {
 	return out
 }
 
+// directedBases: small frames in which several counts and lengths depend on each other (row sets without metadata, batches,
+// maps and lists); every field of these receives every boundary value in both tiers.
+func directedBases() []*baseFrame {
+	var out []*baseFrame
+	cell := func(b ...byte) []byte { return b }
+	for _, v := range allVersions {
+		msgs := []message.Message{
+			&message.RowsResult{Metadata: &message.RowsMetadata{ColumnCount: 2}, Data: message.RowSet{{cell(1), cell(2, 3)}, {nil, cell()}}},
+			&message.RowsResult{Metadata: &message.RowsMetadata{ColumnCount: 1, PagingState: []byte{9}}, Data: message.RowSet{{cell(7)}}},
+			&message.RowsResult{Metadata: &message.RowsMetadata{ColumnCount: 2, Columns: columnsOf([]datatype.DataType{datatype.Int, datatype.Varchar}, true)},
+				Data: message.RowSet{{cell(0, 0, 0, 1), cell('a')}}},
+			&message.PreparedResult{PreparedQueryId: []byte{1, 2}, VariablesMetadata: &message.VariablesMetadata{Columns: columnsOf([]datatype.DataType{datatype.Int}, true)},
+				ResultMetadata: &message.RowsMetadata{ColumnCount: 1, Columns: columnsOf([]datatype.DataType{datatype.Varchar}, true)}},
+			&message.Batch{Children: []*message.BatchChild{{Query: "q", Values: []*primitive.Value{primitive.NewValue([]byte{1})}}, {Id: []byte{5}, Values: []*primitive.Value{}}}},
+			&message.Execute{QueryId: []byte{1}, Options: &message.QueryOptions{PositionalValues: []*primitive.Value{primitive.NewValue([]byte{1}), primitive.NewNullValue()}}},
+			&message.Supported{Options: map[string][]string{"COMPRESSION": {"lz4", "snappy"}}},
+			&message.Register{EventTypes: []primitive.EventType{primitive.EventTypeSchemaChange, primitive.EventTypeStatusChange}},
+		}
+		if v >= v4 {
+			msgs = append(msgs, &message.Unprepared{ErrorMessage: "u", Id: []byte{1, 2, 3}})
+		}
+		for i, m := range msgs {
+			gc := genCase{kind: kindOf(m), version: v, comp: "none", class: fmt.Sprintf("directed%d", i), f: plainFrame(v, 1, m)}
+			if b := makeBase(gc); b != nil {
+				out = append(out, b)
+			}
+		}
+	}
+	return out
+}
+
 // ---------------------------------------------------------------- mutation families
 
 type jobSink struct {
@@ -958,6 +990,9 @@ func cmdMalformed(args []string) {
 		s.add([]string{"frame"}, nil, c.version, "none", in, "corpus: re-encode class "+c.slug)
 	}
 	headerMutations(s, thorough)
+	for _, b := range directedBases() {
+		fieldMutations(s, b, 1<<30, rnd)
+	}
 	order := rnd.Perm(len(bases))
 	if thorough {
 		for _, b := range bases {
